@@ -9,6 +9,7 @@ mod c14;
 mod c16;
 mod c17;
 mod c18;
+mod c19;
 mod enc;
 mod gen;
 mod hist;
@@ -35,6 +36,7 @@ fn main() {
         let line = std::panic::catch_unwind(std::panic::AssertUnwindSafe(|| match kind {
             "C16" => c16::case(&mut rng),
             "C17" => c17::case(&mut rng),
+            "C19" => c19::case(&mut rng),
             "C18A" => c18::arch_case(&mut rng),
             "C18N" => c18::npz_case(&mut rng, case),
             "H01" => hist::net_case(&mut rng, false),
